@@ -120,6 +120,7 @@ ServiceConstraintRecord = recordclass('ServiceConstraintRecord',
 class NetworkServiceSliver(BaseSliver):
 
     NAME_REGEX = r'^[\w\-_\.]{2,255}$'
+    TYPE_CLASS = ServiceType
 
     # whenever there is no limit, num is set to 0
     NO_LIMIT = 0
